@@ -35,7 +35,18 @@ type scriptConn struct {
 	used       int
 	out        []byte
 	firstWrite int // bytes consumed when the first Write happened (-1: nothing written)
+	g          *gate
+	writes     int
 }
+
+// gate parks one Write of a connection (before its bytes are taken) until released: used to handle a second
+// connection while the first one's reply is being written
+type gate struct {
+	at              int
+	parked, release chan struct{}
+}
+
+var pendingGate *gate // consumed by the next newConn
 
 func (c *scriptConn) Read(p []byte) (int, error) {
 	if len(p) == 0 {
@@ -64,6 +75,11 @@ func (c *scriptConn) Read(p []byte) (int, error) {
 	return k, nil
 }
 func (c *scriptConn) Write(p []byte) (int, error) {
+	if c.g != nil && c.writes == c.g.at {
+		close(c.g.parked)
+		<-c.g.release
+	}
+	c.writes++
 	if c.firstWrite < 0 {
 		c.firstWrite = c.used
 	}
@@ -82,7 +98,9 @@ func (c *scriptConn) SetReadDeadline(t time.Time) error  { return nil }
 func (c *scriptConn) SetWriteDeadline(t time.Time) error { return nil }
 
 func newConn(s []byte, cuts []int) *scriptConn {
-	return &scriptConn{data: append([]byte(nil), s...), cuts: append([]int(nil), cuts...), firstWrite: -1}
+	c := &scriptConn{data: append([]byte(nil), s...), cuts: append([]int(nil), cuts...), firstWrite: -1, g: pendingGate}
+	pendingGate = nil
+	return c
 }
 
 // ---------------------------------------------------------------------------------------------
@@ -279,18 +297,20 @@ func outOK(e expT, out []byte) string {
 // ---------------------------------------------------------------------------------------------
 
 type caseIn struct {
-	K       string  `json:"k"` // listener | adapter | udp | build
-	S       string  `json:"s"`
-	Cuts    []int   `json:"cuts"`
-	Auth    bool    `json:"auth"`
-	User    string  `json:"user"`
-	Pass    string  `json:"pass"`
-	D       string  `json:"d"`
-	Host    string  `json:"host"`
-	Port    int     `json:"port"`
-	Payload string  `json:"payload"`
-	Ops     []seqOp `json:"ops"`    // seq: operations on ONE relay, results retained until the end
-	Rounds  int     `json:"rounds"` // conc: rounds of len(Ops) goroutines building at the same time on ONE relay
+	K       string            `json:"k"` // listener | adapter | udp | build
+	S       string            `json:"s"`
+	Cuts    []int             `json:"cuts"`
+	Auth    bool              `json:"auth"`
+	User    string            `json:"user"`
+	Pass    string            `json:"pass"`
+	D       string            `json:"d"`
+	Host    string            `json:"host"`
+	Port    int               `json:"port"`
+	Payload string            `json:"payload"`
+	Ops     []seqOp           `json:"ops"`    // seq: operations on ONE relay, results retained until the end
+	Rounds  int               `json:"rounds"` // conc: rounds of len(Ops) goroutines building at the same time on ONE relay
+	Conns   []json.RawMessage `json:"conns"`  // twoconn: two listener/adapter cases handled at overlapping times
+	Later   []string          `json:"later"`  // relay: datagrams (to port 53) that arrive while datagram D is still being handled
 }
 
 type canonT struct {
@@ -316,6 +336,9 @@ type caseOut struct {
 	Port2    int             `json:"port2"`
 	Payload2 string          `json:"payload2"`
 	Ops      []seqRes        `json:"ops,omitempty"`
+	Conns    []*caseOut      `json:"conns,omitempty"`
+	Inconcl  int             `json:"inconclusive"` // relay rounds in which a datagram did not arrive in time (not judged)
+	RelayOK  int             `json:"relay_rounds_judged"`
 	Aliased  int             `json:"payload_aliases_input"` // parse results whose payload is a sub-slice of the input buffer
 	Tbl      [][]interface{} `json:"tbl"`                   // net.ParseIP oracle: [hex text, hex 16-byte ip | null]
 	PropOK   bool            `json:"prop_ok"`
@@ -601,6 +624,10 @@ func runCase(raw json.RawMessage) interface{} {
 		if rok {
 			o.addTbl(hostText(ratyp, raddr))
 		}
+	case "twoconn":
+		runTwoConn(&c, o)
+	case "relay":
+		runRelay(&c, o)
 	case "seq":
 		runSeq(&c, o)
 	case "conc":
